@@ -312,8 +312,8 @@ func genShape(t *rapid.T) Shape {
 	files := rapid.IntRange(3, 16).Draw(t, "files")
 	dirs := rapid.IntRange(3, 14).Draw(t, "dirs")
 	// wide directories: the work left inside ONE directory after a cancellation must be bounded too
-	if rapid.IntRange(0, 4).Draw(t, "wide") == 0 {
-		files, dirs = rapid.SampledFrom([]int{60, 90, 150}).Draw(t, "wide-files"), rapid.IntRange(1, 3).Draw(t, "wide-dirs")
+	if rapid.IntRange(0, 7).Draw(t, "wide") == 0 {
+		files, dirs = rapid.SampledFrom([]int{90, 150, 240}).Draw(t, "wide-files"), rapid.IntRange(4, 6).Draw(t, "wide-dirs")
 	}
 	return Shape{Dirs: dirs, Files: files, BigKB: rapid.SampledFrom([]int{256, 1024, 4096}).Draw(t, "bigkb"), Nested: rapid.IntRange(0, 2).Draw(t, "nested")}
 }
